@@ -7,7 +7,7 @@ RULE = ('committed corpus written by the pinned release (12 directories: key siz
         '(all index files) or without it (active blob has none), deletes, metas, sizes up to 5000): (1) the Coq model '
         'replays each history and must reproduce every recorded answer AND the recorded blob files byte for byte; (2) the '
         'current crate opens a copy of every directory, for EVERY subset of index files removed, eager and lazy, and must '
-        'answer every recorded query identically; (3) mismatched variants: wrong key size (blobs must be quarantined, never '
+        'answer every recorded query identically, also after off-loading the bloom buffers re-read from the recorded index files; (3) mismatched variants: wrong key size (blobs must be quarantined, never '
         'misread), blob version bumped (init must fail with a validation error), index version / key size changed (index '
         'ignored, answers unchanged); distinct by (entry, index subset, variant)')
 ASSUMPTIONS = ['the corpus was generated from commit 8fcb7aa plus the cfg-gated hook commits (no behavioural change)',
@@ -33,6 +33,14 @@ def gen(tier, rng):
                 L[0] = L[0].replace('init=eager', 'init=lazy') if lazy else L[0]
                 L[open_i:open_i] = ['rmindex %d' % i for i in sub]
                 out.append(('%s/idx-%s%s' % (e, ''.join(map(str, sub)) or 'all', '-lazy' if lazy else ''), '\n'.join(L) + '\n'))
+                if 'bloom=none' not in L[0] and len(sub) in (0, 1):
+                    # the same queries once more after the bloom buffers (re-read from the recorded index files) were dropped:
+                    # the probes then read the filter bits from the recorded files
+                    oi2 = L.index('open')
+                    qs = [l for l in L[oi2 + 1:] if l.split()[0] in ('R', 'C', 'RD', 'RA', 'RW', 'CF', 'counts')]
+                    for lvl in ((0, 1, 2) if tier != 'quick' else (rng.choice([0, 1, 2]),)):
+                        L2 = L + ['offload 100000000 %d' % lvl] + qs
+                        out.append(('%s/idx-%s%s-offload%d' % (e, ''.join(map(str, sub)) or 'all', '-lazy' if lazy else '', lvl), '\n'.join(L2) + '\n'))
         # mismatch variants (oracle only)
         K = int(re.search(r'K=(\d+)', q[0]).group(1))
         otherK = 8 if K != 8 else 4
@@ -100,4 +108,4 @@ classify = C.default_classify
 
 
 def signature(lines, io):
-    return hash((lines[0], tuple(l for l in lines if l.startswith('rmindex') or l.startswith('patch'))))
+    return hash((lines[0], tuple(l for l in lines if l.startswith('rmindex') or l.startswith('patch') or l.startswith('offload'))))
